@@ -438,16 +438,47 @@ def I128.fromString (s : List Char) : Option I128 := (parseToBigInt s).map I128.
 def U128.fromStringNoCheck (s : List Char) : U128 := (U128.fromString s).getD U128.zero
 def I128.fromStringNoCheck (s : List Char) : I128 := (I128.fromString s).getD I128.zero
 
-/-- `UnmarshalText`, `UnmarshalJSON` (given the raw bytes) and `UnmarshalYAML` (given the scalar's string) all are:
-    parse; on success overwrite the receiver; on error leave it alone.  Result: (new receiver, ok) -/
-def U128.unmarshal (recv : U128) (s : List Char) : U128 × Bool :=
+/-! ### loading into a receiver
+
+`UnmarshalText`, `UnmarshalJSON` (given the raw bytes), `UnmarshalYAML` (given the scalar's string) and `Scan` (given the
+token) all end with the same three statements on the receiver `*u`, a memory cell:
+
+    v, err := Uint128FromString(text)     -- the zero value next to an error
+    if err != nil { return err }          -- the check
+    *u = v                                -- the store
+    return nil
+
+The model keeps the ORDER of check and store as a parameter, so that "store before the check" (`*u = v; return err`) is a
+variant of the same definition; the code's order is `checkThenStore`.  Result: (receiver afterwards, `err == nil`). -/
+
+inductive LoadOrder where
+  | checkThenStore | storeThenCheck
+deriving DecidableEq, Repr
+
+/-- `FromString` as Go returns it: the value — the zero value when there is an error — and `err == nil` -/
+def U128.fromStringGo (s : List Char) : U128 × Bool :=
   match U128.fromString s with
   | some v => (v, true)
-  | none => (recv, false)
-def I128.unmarshal (recv : I128) (s : List Char) : I128 × Bool :=
+  | none => (U128.zero, false)
+def I128.fromStringGo (s : List Char) : I128 × Bool :=
   match I128.fromString s with
   | some v => (v, true)
-  | none => (recv, false)
+  | none => (I128.zero, false)
+
+def U128.loadGen (order : LoadOrder) (recv : U128) (s : List Char) : U128 × Bool :=
+  let r := U128.fromStringGo s
+  match order with
+  | .checkThenStore => if r.2 = false then (recv, false) else (r.1, true)
+  | .storeThenCheck => (r.1, r.2)
+def I128.loadGen (order : LoadOrder) (recv : I128) (s : List Char) : I128 × Bool :=
+  let r := I128.fromStringGo s
+  match order with
+  | .checkThenStore => if r.2 = false then (recv, false) else (r.1, true)
+  | .storeThenCheck => (r.1, r.2)
+
+/-- `UnmarshalText`, `UnmarshalJSON`, `UnmarshalYAML` (string delivered): the code's order -/
+def U128.unmarshal (recv : U128) (s : List Char) : U128 × Bool := U128.loadGen .checkThenStore recv s
+def I128.unmarshal (recv : I128) (s : List Char) : I128 × Bool := I128.loadGen .checkThenStore recv s
 
 /-! ## fmt.Scanner: `Scan` reads one blank-delimited token and passes `scanText token verb` to `FromString` -/
 
